@@ -263,7 +263,156 @@ class Keywords(ast.NodeTransformer):
         return c
 
 
-TRANSFORMS = {"whiletrue": WhileTrue, "ifexp": IfExpAssign, "extractarg": ExtractArg, "keywords": Keywords, "rename": Rename, "notis": NotIs, "swapis": SwapIs, "invertif": InvertIf, "testlocal": TestLocal, "elsereturn": ElseReturn, "annot": Annot}
+class FormatCalls(ast.NodeTransformer):
+    """f"a{x}b{y!r}"  ->  "a{}b{!r}".format(x, y)   (no format specs, no nested f-strings)"""
+    def visit_JoinedStr(self, n):
+        self.generic_visit(n)
+        fmt, args = "", []
+        for v in n.values:
+            if isinstance(v, ast.Constant) and isinstance(v.value, str):
+                fmt += v.value.replace("{", "{{").replace("}", "}}")
+            elif isinstance(v, ast.FormattedValue) and v.format_spec is None and not any(isinstance(x, ast.JoinedStr) for x in ast.walk(v.value)):
+                fmt += "{" + ({-1: "", 115: "!s", 114: "!r", 97: "!a"}[v.conversion]) + "}"
+                args.append(v.value)
+            else:
+                return n
+        if not args:
+            return n
+        return ast.copy_location(ast.Call(func=ast.Attribute(value=ast.Constant(value=fmt), attr="format", ctx=ast.Load()), args=args, keywords=[]), n)
+
+
+class CompToLoop(ast.NodeTransformer):
+    """x = [E for t in it if c] / {K: V for ...}  (statement level, one generator)  ->  x = []; for t in it: if c: x.append(E)"""
+    def __init__(self):
+        self.k = 0
+
+    def _block(self, stmts):
+        out = []
+        for st in stmts:
+            v = getattr(st, "value", None)
+            if isinstance(st, (ast.Assign, ast.Return)) and isinstance(v, (ast.ListComp, ast.DictComp)) and len(v.generators) == 1 and not v.generators[0].is_async \
+                    and (isinstance(st, ast.Return) or (len(st.targets) == 1 and isinstance(st.targets[0], ast.Name)
+                                                          and not any(isinstance(x, ast.Name) and x.id == st.targets[0].id for x in ast.walk(v)))):
+                self.k += 1
+                acc = st.targets[0].id if isinstance(st, ast.Assign) else f"_acc{self.k}"
+                g = v.generators[0]
+                ren = {x.id: f"{x.id}_c{self.k}" for x in ast.walk(g.target) if isinstance(x, ast.Name)}
+
+                class R(ast.NodeTransformer):
+                    def visit_Name(s_, nm):
+                        return ast.copy_location(ast.Name(id=ren.get(nm.id, nm.id), ctx=nm.ctx), nm)
+                if isinstance(v, ast.DictComp):
+                    store = ast.Assign(targets=[ast.Subscript(value=ast.Name(id=acc, ctx=ast.Load()), slice=R().visit(copy.deepcopy(v.key)), ctx=ast.Store())], value=R().visit(copy.deepcopy(v.value)))
+                    init = ast.Dict(keys=[], values=[])
+                else:
+                    store = ast.Expr(value=ast.Call(func=ast.Attribute(value=ast.Name(id=acc, ctx=ast.Load()), attr="append", ctx=ast.Load()), args=[R().visit(copy.deepcopy(v.elt))], keywords=[]))
+                    init = ast.List(elts=[], ctx=ast.Load())
+                body = [store]
+                for c in reversed(g.ifs):
+                    body = [ast.If(test=R().visit(copy.deepcopy(c)), body=body, orelse=[])]
+                new = [ast.Assign(targets=[ast.Name(id=acc, ctx=ast.Store())], value=init), ast.For(target=R().visit(copy.deepcopy(g.target)), iter=g.iter, body=body, orelse=[])]
+                if isinstance(st, ast.Return):
+                    new.append(ast.Return(value=ast.Name(id=acc, ctx=ast.Load())))
+                for x in new:
+                    ast.copy_location(x, st)
+                    ast.fix_missing_locations(x)
+                out += new
+            else:
+                out.append(st)
+        return out
+
+    def generic_visit(self, node):
+        super().generic_visit(node)
+        for f in ("body", "orelse", "finalbody"):
+            b = getattr(node, f, None)
+            if isinstance(b, list) and b and isinstance(b[0], ast.stmt) and not isinstance(node, ast.ClassDef):
+                setattr(node, f, self._block(b))
+        return node
+
+
+class IfToMatch(ast.NodeTransformer):
+    """if isinstance(x, A): .. elif isinstance(x, B): .. [else: ..]   (x a plain name, A/B names or tuples of names)  ->  match x: case A(): .."""
+    def visit_If(self, n):
+        self.generic_visit(n)
+        chain, cur = [], n
+        while True:
+            t = cur.test
+            if not (isinstance(t, ast.Call) and isinstance(t.func, ast.Name) and t.func.id == "isinstance" and len(t.args) == 2 and isinstance(t.args[0], ast.Name)):
+                return n
+            classes = t.args[1].elts if isinstance(t.args[1], ast.Tuple) else [t.args[1]]
+            if not classes or not all(isinstance(c, (ast.Name, ast.Attribute)) for c in classes) or (chain and t.args[0].id != chain[0][0]):
+                return n
+            chain.append((t.args[0].id, classes, cur.body))
+            if len(cur.orelse) == 1 and isinstance(cur.orelse[0], ast.If):
+                cur = cur.orelse[0]
+                continue
+            tail = cur.orelse
+            break
+        if len(chain) < 2:
+            return n
+        cases = []
+        for _, classes, body in chain:
+            pats = [ast.MatchClass(cls=c, patterns=[], kwd_attrs=[], kwd_patterns=[]) for c in classes]
+            cases.append(ast.match_case(pattern=pats[0] if len(pats) == 1 else ast.MatchOr(patterns=pats), guard=None, body=body))
+        if tail:
+            cases.append(ast.match_case(pattern=ast.MatchAs(pattern=None, name=None), guard=None, body=tail))
+        return ast.copy_location(ast.Match(subject=ast.Name(id=chain[0][0], ctx=ast.Load()), cases=cases), n)
+
+
+class ParamCopy(ast.NodeTransformer):
+    """def f(self, p, ...): body   ->   p_in = p ; body[p -> p_in]   for the first plain parameter that is never re-bound"""
+    def visit_FunctionDef(self, fn):
+        self.generic_visit(fn)
+        ps = [a.arg for a in fn.args.args if a.arg not in ("self", "cls")]
+        if not ps or any(isinstance(x, (ast.Nonlocal, ast.Global, ast.Lambda, ast.FunctionDef, ast.ClassDef)) for b in fn.body for x in ast.walk(b)):
+            return fn
+        p_ = ps[0]
+        nodes = [x for b in fn.body for x in ast.walk(b)]
+        if any(isinstance(x, ast.Name) and x.id == p_ and isinstance(x.ctx, (ast.Store, ast.Del)) for x in nodes) or any(isinstance(x, ast.Name) and x.id == p_ + "_in" for x in nodes):
+            return fn
+        if not any(isinstance(x, ast.Name) and x.id == p_ for x in nodes):
+            return fn
+        for x in nodes:
+            if isinstance(x, ast.Name) and x.id == p_:
+                x.id = p_ + "_in"
+        k = 1 if fn.body and isinstance(fn.body[0], ast.Expr) and isinstance(fn.body[0].value, ast.Constant) and isinstance(fn.body[0].value.value, str) else 0
+        cp = ast.Assign(targets=[ast.Name(id=p_ + "_in", ctx=ast.Store())], value=ast.Name(id=p_, ctx=ast.Load()))
+        ast.copy_location(cp, fn.body[k] if len(fn.body) > k else fn)
+        ast.fix_missing_locations(cp)
+        fn.body.insert(k, cp)
+        return fn
+
+
+class OrReturn(ast.NodeTransformer):
+    """`if c: return True` directly followed by `return E`  ->  `return bool(c) or E`   (and `return False` / `and`)"""
+    def _block(self, stmts):
+        out, i = [], 0
+        while i < len(stmts):
+            st = stmts[i]
+            nx = stmts[i + 1] if i + 1 < len(stmts) else None
+            if isinstance(st, ast.If) and not st.orelse and len(st.body) == 1 and isinstance(st.body[0], ast.Return) and isinstance(st.body[0].value, ast.Constant) \
+                    and st.body[0].value.value is True and isinstance(nx, ast.Return) and nx.value is not None \
+                    and not any(isinstance(x, (ast.NamedExpr, ast.Yield, ast.YieldFrom, ast.Await)) for x in ast.walk(st.test)):
+                r = ast.Return(value=ast.BoolOp(op=ast.Or(), values=[ast.Call(func=ast.Name(id="bool", ctx=ast.Load()), args=[st.test], keywords=[]), nx.value]))
+                ast.copy_location(r, st)
+                ast.fix_missing_locations(r)
+                out.append(r)
+                i += 2
+                continue
+            out.append(st)
+            i += 1
+        return out
+
+    def generic_visit(self, node):
+        super().generic_visit(node)
+        for f in ("body", "orelse", "finalbody"):
+            b = getattr(node, f, None)
+            if isinstance(b, list) and b and isinstance(b[0], ast.stmt) and not isinstance(node, ast.ClassDef):
+                setattr(node, f, self._block(b))
+        return node
+
+
+TRANSFORMS = {"formatcalls": FormatCalls, "comptoloop": CompToLoop, "iftomatch": IfToMatch, "paramcopy": ParamCopy, "orreturn": OrReturn, "whiletrue": WhileTrue, "ifexp": IfExpAssign, "extractarg": ExtractArg, "keywords": Keywords, "rename": Rename, "notis": NotIs, "swapis": SwapIs, "invertif": InvertIf, "testlocal": TestLocal, "elsereturn": ElseReturn, "annot": Annot}
 
 
 def transform_tree(root: str, name: str) -> int:
